@@ -6,7 +6,8 @@
 (* with respect to InFlightAbs - with the recorded results, and the final observation of every request and of   *)
 (* the id pool agrees with the abstract state reached.                                                          *)
 (*   {"a":"reset","trace":k}                                                                                    *)
-(*   {"a":"call","t":thread,"op":"M"|"E"|"D"|"C","k":id,"last":bool,"mark":n}                                    *)
+(*   {"a":"call","t":thread,"op":"M"|"E"|"D"|"C"|"R","k":id,"last":bool,"mark":n}   (R: the caller polls the request  *)
+(*                                                    its k-th call was given; ret ok with rid = the frame's mark)  *)
 (*   {"a":"ret","t":thread,"ok":bool,"rid":id}                                                                   *)
 (*   {"a":"obs","closed":bool,"free":[ids],"reqs":[{"t":thread,"c":call number,"id","managed","done","failed",   *)
 (*                                                     "frames":[marks]}]}       (last line of a trace)          *)
@@ -53,6 +54,7 @@ Lin(t) ==
             [] e.op = "E" -> e.k \in AllIds /\ ASendExplicit(e.k)
             [] e.op = "D" -> e.k \in AllIds /\ ADeliverM(e.k, e.last, e.mark)
             [] e.op = "C" -> AClose
+            [] e.op = "R" -> UNCHANGED avars      \* takes effect at its return, where the result is known
        /\ th' = [th EXCEPT ![t] = [st |-> "lin", e |-> e, acc |-> Len(rq') = Len(rq) + 1, tag |-> Len(rq')]]
     /\ UNCHANGED <<l, cur, ncall, tagOf>>
 
@@ -67,8 +69,15 @@ Ret == /\ l <= Len(Trace) /\ Trace[l].a = "ret"
                                       /\ e.ok => rq[c.tag].id = e.rid
           /\ tagOf' = IF c.e.op \in {"M", "E"} /\ e.ok THEN tagOf @@ (<<e.t, ncall[e.t]>> :> c.tag) ELSE tagOf
           /\ th' = [th EXCEPT ![e.t] = Idle]
+          \* a frame the caller took out of its request is the next one the specification routed to that request
+          /\ IF c.e.op = "R" /\ e.ok
+             THEN /\ <<e.t, c.e.k>> \in DOMAIN tagOf
+                  /\ LET tg == tagOf[<<e.t, c.e.k>>] IN
+                     /\ rq[tg].buf # <<>> /\ Head(rq[tg].buf) = e.rid
+                     /\ AReceive(tg)
+             ELSE UNCHANGED avars
        /\ l' = l + 1
-       /\ UNCHANGED <<avars, cur, ncall>>
+       /\ UNCHANGED <<cur, ncall>>
 
 \* the final observation: every request a caller holds is in the state the specification says, with exactly the
 \* frames the specification routed to it, in order; the pool holds exactly the assignable ids, each once
